@@ -266,7 +266,7 @@ class EngineBase(PathMgr):
                     K = poss[self.choose([cid == K.cid for K in poss])]
                     self.set_class(v, K, exact=True)
                     return K
-            self.unsupported(f'class of value unknown: {what or smt.simp(v)}')
+            self.unsupported(f'class of value unknown: {what} [{str(smt.simp(v)).replace(chr(10),' ')[-260:]}]')
         return c
 
     # ------------------------------------------------------------------ truthiness
